@@ -49,7 +49,14 @@ class CmdMixin(object):
         if st.exc:
             cm.alive = False
             cm.sub = None
-            self.halted = True
+            # after the known cross-app id failure (F8) the history goes on: what the failed command left
+            # behind for *other* clients is still judged; any other internal failure cuts the history
+            if not (self.known and self.known[-1]["id"] == "F8" and self.known[-1]["step"] == st.i):
+                self.halted = True
+            else:
+                for mm in self.mb.values():
+                    if mm.mid == msg.get("mailbox"):
+                        mm.t_high = max(mm.t_high, st.t)
             return
 
         if cls == REJECTED:
@@ -282,6 +289,10 @@ class CmdMixin(object):
         cm.allocated_name = name
         used = {r["name"] for r in st.before["nameplates"].values() if r["app_id"] == cm.app}
         problems = allocation_problems(name, used)
+        lost = self.lost_np.get((cm.app, name))
+        if lost is not None and lost[1]:
+            # its row was removed wrongly earlier (a violation already reported): the sides that never released still hold it
+            problems.append("still held by %s (never released; its row had been removed wrongly)" % sorted(lost[1]))
         if problems:
             self.flag({"C04"} | ({"C18"} if not self.cfg.allow_list else set()),
                       "allocated nameplate violates free/shortest rule", st,
@@ -555,6 +566,10 @@ class CmdMixin(object):
         n.released.add(cm.side)
         rows_after = np_find(st.after, cm.app, name)
         gone = not rows_after
+        if n.holders() and gone and not n.unknown_origin:
+            # a release never retires a nameplate that other sides still hold: whatever made this happen
+            # (possibly a violation reported several steps ago), those sides still hold the name (C03, C04)
+            self.lost_np[(cm.app, name)] = (n.mid, set(n.holders()))
         if n.holders():
             # C07 (ii): others still hold it
             self.ev["c07_survives_others_hold"] += 1
